@@ -2,6 +2,7 @@ import RactorModel.Extracted
 import RactorModel.Lemmas.LifeC01
 import RactorModel.Lemmas.LifeC01Spec
 import RactorModel.Lemmas.LifeWorld
+import RactorModel.Lemmas.LifeGrace
 
 /-!
 # C01 — One handler at a time, in lifecycle order
@@ -246,6 +247,50 @@ example : Life.C01.ok [.enter .preStart .none, .exit .preStart .ok, .spawnRet .o
     .exit .postStart .ok, .stopRet false .none true, .treeKill, .enter .postStop .none] = false := by decide
 example : Life.C01.ok [.enter .preStart .none, .dropped, .cancelled .preStart, .enter .preStart .none] = false := by decide
 
+/-! ### The graceful path goes through `post_stop`, once (wave 2) -/
+
+open Life.Liveness in
+/-- **`post_stop` is entered at most once.** In an accepted trace nothing after an `enter post_stop` is another one. -/
+theorem post_stop_at_most_once (tr p q : List Ev) (e : Ev) (h : Life.C01.ok tr = true)
+    (hs : tr = p ++ e :: q) (he : isEnterPS e = true) : ∀ x ∈ q, isEnterPS x = false := by
+  obtain ⟨s, hacc⟩ := Life.C01.ok_iff.mp h
+  subst hs
+  obtain ⟨s1, _, h2⟩ := Life.C01.accepts_append_inv _ p _ hacc
+  rw [accepts_cons] at h2
+  cases hn : Life.C01.next s1 e with
+  | error c => simp [hn] at h2
+  | ok s2 =>
+    simp only [hn] at h2
+    exact accepts_late h2 (Or.inl ((next_late hn).1 he))
+
+open Life.Liveness in
+/-- **… and at least once on the graceful path.** An actor that is neither done nor inside `post_stop` and has no
+kill in its signal port: along EVERY run that ends with the actor done (`Stopped`, by `C03.reachable`), the run's
+trace contains `enter post_stop`, or evidence that something else ended the actor — an accepted kill (`kill()`,
+`myself.kill()`, `terminate()`), a callback that returned `Err` / panicked / was cancelled, an aborted task, a
+dropped or failed start (`isInterv`). Together with `post_stop_at_most_once`, `C03.stop_reaches_stopped` and
+`C03.drain_reaches_stopped`: after an accepted stop / an enqueued drain marker the actor reaches `Stopped` with
+`post_stop` entered exactly once in between unless a kill or failure intervenes. -/
+theorem graceful_exit_passes_post_stop (a : Actor) (ops : List AOp) (hnd : a.phase ≠ .done)
+    (hnp : ∀ r, a.phase ≠ .postStop r) (hs : a.sigVal = false) (hfin : (a.run ops).1.phase = .done) :
+    (∃ e ∈ (a.run ops).2, isEnterPS e = true) ∨ (∃ e ∈ (a.run ops).2, isInterv e = true) := by
+  rcases grace_run ops a hnd hnp hfin with h | h
+  · rw [hs] at h; cases h
+  · exact h
+
+-- graceful stop: exactly one `enter post_stop`, no intervention in the trace
+example : ((traceNoSnap 0 [.spawn none none true false true, .resume ⟨[], .ok⟩, .pollSpawn true, .poll,
+    .resume ⟨[], .ok⟩, .stop none, .poll, .resume ⟨[], .ok⟩, .poll]).filter Life.Liveness.isEnterPS).length = 1 := by decide
+example : ((traceNoSnap 0 [.spawn none none true false true, .resume ⟨[], .ok⟩, .pollSpawn true, .poll,
+    .resume ⟨[], .ok⟩, .stop none, .poll, .resume ⟨[], .ok⟩, .poll]).filter Life.Liveness.isInterv).length = 0 := by decide
+-- a handler failure intervenes: no `post_stop`, the evidence is in the trace
+example : ((traceNoSnap 0 [.spawn none none true false true, .resume ⟨[], .ok⟩, .pollSpawn true, .poll,
+    .resume ⟨[], .ok⟩, .send 1, .poll, .stop none, .resume ⟨[], .err 3⟩, .poll]).filter Life.Liveness.isEnterPS).length = 0 := by
+  decide
+example : ((traceNoSnap 0 [.spawn none none true false true, .resume ⟨[], .ok⟩, .pollSpawn true, .poll,
+    .resume ⟨[], .ok⟩, .send 1, .poll, .stop none, .resume ⟨[], .err 3⟩, .poll]).filter Life.Liveness.isInterv)
+    = [.exit .handle (.err 3)] := by decide
+
 end C01
 
 #print axioms C01.lifecycle
@@ -261,3 +306,5 @@ end C01
 #print axioms C01.instant_first_poll_enters_pre_start
 #print axioms C01.src_thread_local_twins
 #print axioms C01.src_status
+#print axioms C01.post_stop_at_most_once
+#print axioms C01.graceful_exit_passes_post_stop
